@@ -44,7 +44,65 @@ pub fn replay(args: &Args) {
     let mut g = ExtendedHeaderGenerator::new();
     g.set_time(base, Duration::from_secs(2));
     let chain = g.next_many_empty(n + 1); // header h has time base + 2h seconds
+    // (stored mask, cutoff) -> allowed answers, for the sequences in which the store shrinks between two searches
+    let mut index: std::collections::HashMap<(u64, u64), Vec<u64>> = Default::default();
+    for c in &cases {
+        index.insert((c["s"].as_u64().unwrap(), c["c"].as_u64().unwrap()),
+                     c["allowed"].as_array().unwrap().iter().map(|v| v.as_u64().unwrap()).collect());
+    }
+    let max_cut = cases.iter().map(|c| c["c"].as_u64().unwrap()).max().unwrap_or(0);
     rt.block_on(async {
+        // the worker's real pattern: ONE cache over increasing cutoffs while the pruner removes what the search
+        // found (the answer alone, or everything up to it) -- the cache then holds entries for heights that are gone
+        for (s, _) in by_s.iter() {
+            for variant in 0..2u8 {
+                let store = InMemoryStore::new();
+                for (a, b) in &runs_of_mask(*s) {
+                    store.insert(chain[(*a - 1) as usize..*b as usize].to_vec()).await.expect("build store");
+                }
+                let mut mask = *s;
+                let mut cache = WindowSearch::new();
+                let mut prev: Option<u64> = None;
+                for cut in 0..=max_cut {
+                    if mask == 0 {
+                        break;
+                    }
+                    let Some(allowed) = index.get(&(mask, cut)) else { continue };
+                    let stored: BlockRanges = store.get_stored_header_ranges().await.unwrap();
+                    let cutoff = (base + Duration::from_secs(cut)).unwrap();
+                    let got = catch_find(&mut cache, &store, &stored, &cutoff, prev, 0).await;
+                    let key = Some(format!("seq/{s}/{variant}/{cut}"));
+                    sum.case("C36", key, || json!({"s0": s, "mask": mask, "c": cut, "prev": prev, "cache": "shared-while-pruning"}));
+                    match got {
+                        Err(e) => sum.violation("C36", json!({"s0": s, "mask": mask, "c": cut, "prev": prev, "why": format!("error/panic: {e}"),
+                                    "class": {"kind": "error", "mode": 0, "cache": "shared-while-pruning"}})),
+                        Ok(None) => {}
+                        Ok(Some(r)) => {
+                            let rr = r.unwrap_or(0);
+                            if !allowed.contains(&rr) {
+                                sum.violation("C36", json!({"s0": s, "mask": mask, "c": cut, "prev": prev, "cache": "shared-while-pruning",
+                                    "why": format!("answer {rr} not among the allowed answers {allowed:?} (stored mask {mask} after removals from {s}, cutoff {cut}, times 2h, prev {prev:?}, one cache across the calls)"),
+                                    "class": {"kind": "wrong-answer", "mode": 0, "cache": "shared-while-pruning"}}));
+                                break;
+                            }
+                            if let Some(h) = r {
+                                if prev < Some(h) {
+                                    prev = Some(h);
+                                }
+                                // the pruner removes the answer (variant 0) or everything up to it (variant 1)
+                                let lo = if variant == 0 { h } else { 1 };
+                                for x in lo..=h {
+                                    if mask & (1 << (x - 1)) != 0 {
+                                        store.remove_height(x).await.expect("remove");
+                                        mask &= !(1 << (x - 1));
+                                    }
+                                }
+                            }
+                        }
+                    }
+                }
+            }
+        }
         for (s, cs) in by_s {
             let store = InMemoryStore::new();
             let runs = runs_of_mask(s);
